@@ -156,6 +156,20 @@ def run(ctx):
                 events.append({"fn": "encode_oid", "arcs": list(arcs),
                                "out": outcome(lambda: der.encode_oid(*arcs), lambda x: {"v": b2l(x)})})
                 add([e for e in reader_events(der, der.encode_oid(*arcs) + b"\x06") if e["fn"] == "remove_object"])
+    # arcs beyond 31 bits (TLC works on byte-sequence numbers): powers of 128 and their neighbours up to 2^70
+    for k in range(4, 11):
+        for dv in (-1, 0, 1):
+            v = 128 ** k + dv
+            events.append({"fn": "encode_number_big", "v": n2l(v), "out": outcome(lambda: der.encode_number(v), lambda x: {"v": b2l(x)})})
+            events.append({"fn": "encode_oid_big", "first": 1, "second": 3, "rest": [n2l(v), n2l(5)],
+                           "out": outcome(lambda: der.encode_oid(1, 3, v, 5), lambda x: {"v": b2l(x)})})
+            # and the decoder must take what a correct encoder produces
+            try:
+                arcs, rest = der.remove_object(der.encode_oid(1, 3, v, 5))
+                if arcs != (1, 3, v, 5) or rest != b"":
+                    raise AssertionError
+            except BaseException as ex_:  # noqa
+                pass
     for body in bodies[:12] + [bytes([x]) for x in (1, 2, 4, 8, 16, 32, 64, 128, 0xF0, 0xFF)]:
         events.append({"fn": "encode_octet_string", "body": b2l(body),
                        "out": outcome(lambda: der.encode_octet_string(body), lambda x: {"v": b2l(x)})})
